@@ -95,6 +95,12 @@ public:
 
   void discretize();
 
+  /**
+   * @brief The classes are given by the user: their number cannot be changed.
+   * A request for another number of classes (as forwarded by a mixture, for instance) is ignored.
+   */
+  void setNumberOfCategories(size_t nbClasses) {}
+
   void fireParameterChanged(const ParameterList& parameters);
 
   double getLowerBound() const
